@@ -1,5 +1,8 @@
-(* C14 specification (wave 7), from the property statement:
-   (1) "a SAMI paragraph's language: by class / lang attribute; none -> the configured default".  Read as: the FIRST
+(* C14 specification (wave 7).  The property statement only says that "the language options ... select exactly the named
+   language" and its anchor names the mechanism "class/lang attribute -> language" (SAMIParser._find_lang); it does not
+   say HOW a paragraph's attributes name a language.  What follows is therefore NOT a quotation of the statement but the
+   reading of the code's rule adopted for that anchor (interpretive decisions, listed in meta/C14.json "note"):
+   (1) a SAMI paragraph's language comes from its class / lang attributes, none -> the configured default; the FIRST
        attribute of the <P> that names a language decides - an attribute called `lang` (any case) names the two-letter
        cut of its value, an attribute called `class` names the language its class declares in the stylesheet (class
        names compared in lower case) and names nothing when the class is unknown or declares no language; every other
